@@ -28,6 +28,7 @@ from typing import Any
 from harness.common import TranslateError
 
 HDRS = list(range(0, 16))
+LAST_TABLES: dict[str, Any] | None = None
 
 
 class Member:
@@ -799,4 +800,11 @@ def generate(tree: ast.Module) -> tuple[str, dict[str, Any]]:
          '(* format recorded before, format recorded afterwards, format the records are written in, ladder number, header number set (255 = left as it was) *)',
          'Definition pv_writer : list pv_writer_row := [' + '; '.join(f'({f(p)}, {f(r)}, {f(w)}, {n}, {hw})' for p, r, w, n, hw in t['writer']) + ']%N.',
          'Definition pv_tables : pv_cfg := (pv_members, pv_bsp_versions, pv_empty, pv_sized, pv_writer).']
-    return '\n'.join(L), {'prop_version_choice': t}
+    # the full tables stay in this module (checks/c11.py compares them with the implementation); the evidence gets a summary
+    global LAST_TABLES
+    LAST_TABLES = t
+    summary = {'members': t['members'], 'bsp_versions': t['bsp_versions'], 'sizes': t['sizes'], 'writer': t['writer'], 'unknown': t['unknown'],
+               'default': t['default'], 'rows': {'empty': len(t['empty']), 'sized': len(t['sized']), 'writer': len(t['writer'])},
+               'empty_lump_guess(bsp version, header number -> format; nothing named)':
+                   [(b, h, r) for b, h, p, r in t['empty'] if not p and not r.startswith('!') and b in (20, 21)]}
+    return '\n'.join(L), {'prop_version_choice': summary}
